@@ -36,16 +36,30 @@ def f(t):
 spec=json.load(open(sys.argv[2]))
 sig=spec["sig"]
 o=PreOCF.load_ocf(spec["path"], trusted=True)
-out={"sig": list(o.signature), "cached": [o.ranks[w] for w in o.ranks], "kind": o.ranking_system, "impacts": getattr(o, "_impacts", None)}
-out["lazy"]=[o.rank_world(w) for w in spec["lazy"]]
-out["accept"]=[bool(o.conditional_acceptance(Conditional(f(b), f(a), "q"))) for (b,a) in spec["queries"]]
-out["all"]=[int(x) for x in o.compute_all_ranks().values()]
+def oc(fn):
+    try:
+        return fn()
+    except Exception as e:
+        return "EXC:" + type(e).__name__
+out={"sig": list(o.signature), "cached": [[w, o.ranks[w]] for w in o.ranks], "kind": o.ranking_system, "impacts": getattr(o, "_impacts", None)}
+out["is_ocf"]=oc(lambda: bool(o.is_ocf()))
+out["lazy"]=[oc(lambda: o.rank_world(w)) for w in spec["lazy"]]
+out["accept"]=[oc(lambda: bool(o.conditional_acceptance(Conditional(f(b), f(a), "q")))) for (b,a) in spec["queries"]]
+out["franks"]=[oc(lambda: o.formula_rank(f(a))) for (b,a) in spec["queries"]]
+out["all"]=oc(lambda: [[w, int(x)] for w, x in o.compute_all_ranks().items()])
 print(json.dumps(out))
 '''
 
 
 def bits(w):
     return "".join("1" if b else "0" for b in w)
+
+
+def oc(fn):
+    try:
+        return fn()
+    except Exception as e:  # noqa
+        return "EXC:" + type(e).__name__
 
 
 def _worker(case):
@@ -64,13 +78,25 @@ def _worker(case):
             ocf = PreOCF.init_system_z(bb)
         elif case["kind"] == "c-rep":
             ocf = PreOCF.init_random_min_c_rep(bb)
-        else:
+        elif case["kind"] == "custom":
             ocf = PreOCF.init_custom(dict(case["ranks"]), bb, list(sig))
-        for w in case["pre"]:
-            ocf.rank_world(w)
+        elif case["kind"] == "custom-partial":
+            ocf = PreOCF.init_custom(dict(case["ranks"]), None, list(sig))
+        else:  # marginal of a partially computed System Z / c-representation object
+            src = PreOCF.init_system_z(bb) if case["kind"] == "marginal-z" else PreOCF.init_random_min_c_rep(bb)
+            for w in case["pre"]:
+                src.rank_world(w)
+            ocf = src.marginalize([sig[i] for i in case["drop"]])
+            sig = list(ocf.signature)
+        derived = case["kind"] in ("custom-partial", "marginal-z", "marginal-c")
+        if not derived:
+            for w in case["pre"]:
+                ocf.rank_world(w)
         ocf.save_meta("note", {"a": [1, 2, {"b": None}], "s": "x"})
         qs = [Conditional(common.to_pysmt(b, sig), common.to_pysmt(a, sig), "q") for (b, a) in case["queries"]]
-        cached_before = [ocf.ranks[w] for w in ocf.ranks]
+        cached_before = [[w, ocf.ranks[w]] for w in ocf.ranks]
+        if derived:
+            case = dict(case, lazy=[w for w in ocf.ranks][:6] + [w for w in case.get("lazy_small", [])], fresh=True)
         # ---- failing saves first: the object must stay unchanged and usable
         fails = []
         try:
@@ -85,7 +111,7 @@ def _worker(case):
         except Exception:  # noqa
             pass
         del ocf.metadata["bad"]
-        if [ocf.ranks[w] for w in ocf.ranks] != cached_before:
+        if [[w, ocf.ranks[w]] for w in ocf.ranks] != cached_before:
             fails.append("cache changed by a failed save")
         if case["kind"] == "c-rep" and (getattr(ocf, "_optimizer", None) is None or getattr(ocf, "_csp", None) is None):
             fails.append("solver handles not restored after a failed save")
@@ -97,14 +123,19 @@ def _worker(case):
             out["problems"].append("solver handles not restored after save")
         loaded = PreOCF.load_ocf(path, trusted=True)
         out["loaded_sig_ok"] = list(loaded.signature) == list(ocf.signature)
-        out["loaded_cache_ok"] = [loaded.ranks[w] for w in loaded.ranks] == cached_before
-        lazy_l = [loaded.rank_world(w) for w in case["lazy"]]
-        lazy_o = [ocf.rank_world(w) for w in case["lazy"]]
+        out["loaded_cache_ok"] = [[w, loaded.ranks[w]] for w in loaded.ranks] == cached_before
+        out["is_ocf_same"] = oc(lambda: bool(loaded.is_ocf())) == oc(lambda: bool(ocf.is_ocf()))
+        isocf_o = oc(lambda: bool(ocf.is_ocf()))
+        lazy_l = [oc(lambda: loaded.rank_world(w)) for w in case["lazy"]]
+        lazy_o = [oc(lambda: ocf.rank_world(w)) for w in case["lazy"]]
         out["lazy_same"] = lazy_l == lazy_o
-        out["accept_o"] = [bool(ocf.conditional_acceptance(c)) for c in qs]
-        out["accept_same"] = [bool(loaded.conditional_acceptance(c)) for c in qs] == out["accept_o"]
-        out["all_o"] = [int(x) for x in ocf.compute_all_ranks().values()]
-        out["all_same"] = [int(x) for x in loaded.compute_all_ranks().values()] == out["all_o"]
+        out["accept_o"] = [oc(lambda: bool(ocf.conditional_acceptance(c))) for c in qs]
+        out["accept_same"] = [oc(lambda: bool(loaded.conditional_acceptance(c))) for c in qs] == out["accept_o"]
+        franks_o = [oc(lambda: ocf.formula_rank(c.antecedence)) for c in qs]
+        out["formula_ranks_same"] = [oc(lambda: loaded.formula_rank(c.antecedence)) for c in qs] == franks_o
+        all_o = oc(lambda: [[w, int(x)] for w, x in ocf.compute_all_ranks().items()])
+        out["all_o"] = [x for _, x in all_o] if isinstance(all_o, list) else all_o
+        out["all_same"] = oc(lambda: [[w, int(x)] for w, x in loaded.compute_all_ranks().items()]) == all_o
         out["impacts_same"] = getattr(loaded, "_impacts", None) == getattr(ocf, "_impacts", None)
         # ---- fresh interpreter (object saved again in its partial state: re-create it)
         if case["fresh"]:
@@ -112,13 +143,18 @@ def _worker(case):
                 o2 = PreOCF.init_system_z(bb)
             elif case["kind"] == "c-rep":
                 o2 = RandomMinCRepPreOCF.init_with_impacts_list(bb, list(ocf._impacts))
-            else:
+            elif case["kind"] == "custom":
                 o2 = PreOCF.init_custom(dict(case["ranks"]), bb, list(sig))
-            for w in case["pre"]:
-                o2.rank_world(w)
+            elif case["kind"] == "custom-partial":
+                o2 = PreOCF.init_custom(dict(case["ranks"]), None, list(sig))
+            else:
+                o2 = PreOCF.init_custom(dict((w, r) for w, r in cached_before), None, list(sig))
+            if not derived:
+                for w in case["pre"]:
+                    o2.rank_world(w)
             p2 = os.path.join(tmp, "obj2.pkl")
             o2.save_ocf(p2)
-            spec = {"sig": sig, "path": p2, "lazy": case["lazy"], "queries": case["queries"]}
+            spec = {"sig": list(sig), "path": p2, "lazy": case["lazy"], "queries": case["queries"]}
             sp = os.path.join(tmp, "spec.json")
             json.dump(spec, open(sp, "w"))
             sc = os.path.join(tmp, "fresh.py")
@@ -129,7 +165,8 @@ def _worker(case):
                 out["problems"].append("fresh interpreter failed: " + r.stderr[-300:])
             else:
                 fr = json.loads(r.stdout.strip().splitlines()[-1])
-                if fr["sig"] != list(sig) or fr["lazy"] != lazy_o or fr["accept"] != out["accept_o"] or fr["all"] != out["all_o"] or (case["kind"] == "c-rep" and fr["impacts"] != list(ocf._impacts)):
+                if fr["sig"] != list(sig) or fr["lazy"] != lazy_o or fr["accept"] != out["accept_o"] or fr["all"] != all_o or fr["franks"] != franks_o or fr["is_ocf"] != isocf_o or fr["cached"] != cached_before \
+                        or (case["kind"] == "c-rep" and fr["impacts"] != list(ocf._impacts)):
                     out["problems"].append("fresh interpreter differs: %s" % fr)
         # ---- metadata round trips: every (file name, fmt) combination
         meta = {"a": [1, 2, {"b": None}], "s": "x", "n": 3}
@@ -167,7 +204,7 @@ def _worker(case):
 
 def run(tier, seed, broken_proof=False):
     rng = random.Random(seed + 2020)
-    count = 36 if tier == "quick" else 300
+    count = 48 if tier == "quick" else 360
     cand = ops.gen_ops_cases(rng, count * 3, False, max_atoms=4, max_conds=4, nq=0, prefix="s")
     m0 = common.run_model(cand)
     good = [c for c in cand if m0[c["id"]]["part"] is not None and c["base"]][:count]
@@ -175,13 +212,27 @@ def run(tier, seed, broken_proof=False):
     for i, c in enumerate(good):
         n = c["n"]
         worlds = [bits(w) for w in itertools.product([False, True], repeat=n)]
-        kind = ["system-z", "c-rep", "custom"][i % 3]
+        kind = ["system-z", "c-rep", "custom", "custom-partial", "marginal-z", "marginal-c"][i % 6]
         cc = {"id": c["id"], "n": n, "sig": c["sig"], "base": c["base"], "kind": kind, "weakly": False,
               "pre": rng.sample(worlds, rng.randrange(0, len(worlds) + 1)), "lazy": rng.sample(worlds, rng.randrange(1, len(worlds) + 1)),
               "queries": [(gen_formula(rng, n, 1, 0.05), gen_formula(rng, n, 1, 0.05)) for _ in range(4)],
               "fresh": (i % 4 == 0) or tier == "thorough"}
         if kind == "custom":
             cc["ranks"] = [(w, rng.randrange(0, 4)) for w in worlds]
+        elif kind == "custom-partial":
+            # ranks for only some of the worlds (the others have no entry at all); one of them has rank 0
+            some = rng.sample(worlds, rng.randrange(1, len(worlds)))
+            cc["ranks"] = [(w, 0 if j == 0 else rng.randrange(0, 4)) for j, w in enumerate(some)]
+            cc["lazy_small"] = rng.sample(worlds, min(3, len(worlds)))
+        elif kind.startswith("marginal"):
+            if n < 2:
+                kind = cc["kind"] = "system-z"
+            else:
+                cc["drop"] = sorted(rng.sample(range(n), rng.randrange(1, n)))
+                n2 = n - len(cc["drop"])
+                w2 = [bits(w) for w in itertools.product([False, True], repeat=n2)]
+                cc["lazy_small"] = rng.sample(w2, min(3, len(w2)))
+                cc["queries"] = [(gen_formula(rng, n2, 1, 0.05), gen_formula(rng, n2, 1, 0.05)) for _ in range(4)]
         cases.append(cc)
     import concurrent.futures
     import multiprocessing as mp
@@ -218,7 +269,7 @@ def run(tier, seed, broken_proof=False):
         evals += 1
         nontriv.add(c["id"])
         probs = list(im["problems"])
-        for k in ("loaded_sig_ok", "loaded_cache_ok", "lazy_same", "accept_same", "all_same", "impacts_same"):
+        for k in ("loaded_sig_ok", "loaded_cache_ok", "is_ocf_same", "lazy_same", "accept_same", "formula_ranks_same", "all_same", "impacts_same"):
             if k in im and not im[k]:
                 probs.append(k + " is False")
         if c["kind"] == "system-z" and c["id"] in mz and im.get("all_o") is not None and im.get("all_o") != mz[c["id"]]:
@@ -235,7 +286,7 @@ def run(tier, seed, broken_proof=False):
             seen.add(k)
             uniq.append(v)
     return {"evaluations": evals, "distinct_nontrivial": len(nontriv),
-            "rule": "per object (System Z, c-representation, custom; bases <= 4 atoms / 4 conditionals): a random subset of the ranks pre-computed, two failing saves (missing directory, unpicklable metadata member), "
+            "rule": "per object (System Z, c-representation, custom total, custom with ranks for only some worlds, marginal of a partially computed System Z / c-representation object; bases <= 4 atoms / 4 conditionals): a random subset of the ranks pre-computed, two failing saves (missing directory, unpicklable metadata member), "
                     "save_ocf + load_ocf in the same process and (every 4th object; all in the thorough tier) in a fresh interpreter, then lazy ranks in random order, 4 acceptance queries and completion compared; "
                     "9 metadata and 6 impact-file (name, fmt) combinations; non-trivial = each object",
             "samples": samples, "strata": dict(strata), "traces_validated_against_impl": evals, "violations": uniq[:20]}
